@@ -12,6 +12,10 @@ build() {
 build_race() {
   go build -race -tags verif -o bin/vcheck.race ./cmd/vcheck || { echo "BUILD FAILED (race)"; exit 3; }
 }
+build_ugo() {
+  # the command line interpreter (for the process-level cancellation probe of C09)
+  (cd /repo && go build -o "$VERIF_DIR/bin/ugo" ./cmd/ugo) || { echo "BUILD FAILED (cmd/ugo)"; exit 3; }
+}
 needs_race() { case "$1" in C08|C09|C14) return 0;; *) return 1;; esac; }
 if [ "${1:-}" = "build" ]; then build; build_race; exit 0; fi
 if [ "${1:-}" = "replay" ]; then
@@ -22,4 +26,5 @@ prop="$1"; tier="${2:-quick}"
 export VERIF_TIER="$tier"
 build
 if needs_race "$prop"; then build_race; fi
+if [ "$prop" = "C09" ]; then build_ugo; fi
 exec bin/vcheck run "$prop" "$tier"
